@@ -50,6 +50,8 @@ pub fn all_fun_families(cfg: &FunCfg, sink: &mut FunSink) {
     fam_codata(cfg, sink);
     fam_names(cfg, sink);
     fam_arity(cfg, sink);
+    fam_poly(cfg, sink);
+    fam_wide(cfg, sink);
     if cfg.with_unsequenced {
         fam_effect(cfg, sink);
     }
@@ -217,6 +219,65 @@ pub fn fam_shadow(_cfg: &FunCfg, sink: &mut FunSink) {
                     };
                     FunCase { name: format!("shadow/label/{outer}/{inner}/v{variant}"), src: program(&[main_def(&["n"], print(true, body, lit(0)))]), inputs: inputs1(), sequenced: true }
                 });
+            }
+        }
+    }
+    // binders with THREE names (definition parameters, constructor clause, destructor clause, lets)
+    // around an inner clause that rebinds any injective selection of those names in any order; every
+    // name is used inside and after, with position-dependent weights
+    {
+        let names = ["a", "b", "c"];
+        let mut selections: Vec<[Option<usize>; 3]> = Vec::new();
+        for x in 0..4usize {
+            for y in 0..4usize {
+                for z in 0..4usize {
+                    let sel = [x, y, z].map(|v| if v < 3 { Some(v) } else { None });
+                    let picked: Vec<usize> = sel.iter().flatten().copied().collect();
+                    let mut d = picked.clone();
+                    d.sort();
+                    d.dedup();
+                    if d.len() == picked.len() && !picked.is_empty() {
+                        selections.push(sel);
+                    }
+                }
+            }
+        }
+        for outer in 0..5 {
+            for inner in 0..3 {
+                for (si, sel) in selections.iter().enumerate() {
+                    for cont in [false, true] {
+                        let sel = *sel;
+                        sink.offer(move || {
+                            let binders: Vec<String> = sel.iter().enumerate().map(|(i, s)| s.map_or(format!("p{i}"), |v| names[v].to_string())).collect();
+                            let bl = binders.join(", ");
+                            // outer form 4 binds nothing: the names are only bound by the (sibling) clauses
+                            let free_use = format!(
+                                "w({}, {}, {})",
+                                if sel.contains(&Some(0)) { "a" } else { "n" },
+                                if sel.contains(&Some(1)) { "b" } else { "m" },
+                                if sel.contains(&Some(2)) { "c" } else { "7" }
+                            );
+                            let use_all: &str = if outer == 4 { &free_use } else { "w(a, b, c)" };
+                            let inner_t = match inner {
+                                0 => format!("t.case {{ Mk3({bl}) => {use_all} }}"),
+                                1 => format!("(new {{ ap3({bl}) => {use_all} }}).ap3(3, 4, 5)"),
+                                _ => format!("(let s: i64 = t.case {{ Mk3({bl}) => {use_all} }}; Mk3(6, 8, 9).case {{ Mk3({bl}) => {use_all} + (s * 2) }})"),
+                            };
+                            let body = if cont { format!("let r: i64 = {inner_t}; r + ({} * 1000)", if outer == 4 { "w(n, m, 7)" } else { use_all }) } else { inner_t };
+                            let (fdef, call) = match outer {
+                                0 => (format!("def f(a: i64, b: i64, c: i64, t: Trip): i64 {{ {body} }}"), "f(n, m, 7, Mk3(3, 4, 5))".to_string()),
+                                1 => (format!("def f(n: i64, m: i64, t: Trip): i64 {{ Mk3(n, m, 7).case {{ Mk3(a, b, c) => {body} }} }}"), "f(n, m, Mk3(3, 4, 5))".to_string()),
+                                2 => (format!("def f(n: i64, m: i64, t: Trip): i64 {{ (new {{ ap3(a, b, c) => {body} }}).ap3(n, m, 7) }}"), "f(n, m, Mk3(3, 4, 5))".to_string()),
+                                4 => (format!("def f(n: i64, m: i64, t: Trip): i64 {{ {body} }}"), "f(n, m, Mk3(3, 4, 5))".to_string()),
+                                _ => (format!("def f(n: i64, m: i64, t: Trip): i64 {{ let a: i64 = n; let b: i64 = m; let c: i64 = 7; {body} }}"), "f(n, m, Mk3(3, 4, 5))".to_string()),
+                            };
+                            let src = format!(
+                                "{PRELUDE_TYPES}data Trip {{ Mk3(a: i64, b: i64, c: i64) }}\ncodata Fun3 {{ ap3(a: i64, b: i64, c: i64): i64 }}\n{PRELUDE_DEFS}def w(a: i64, b: i64, c: i64): i64 {{ ((a * 100) + (b * 10)) + c }}\n{fdef}\ndef main(n: i64, m: i64): i64 {{ println_i64({call}); 0 }}\n"
+                            );
+                            FunCase { name: format!("shadow/rebind/o{outer}/i{inner}/s{si}/{}", if cont { "cont" } else { "tail" }), src, inputs: vec![vec![1, 2], vec![0, 9]], sequenced: true }
+                        });
+                    }
+                }
             }
         }
     }
@@ -604,6 +665,101 @@ pub fn fam_arity(_cfg: &FunCfg, sink: &mut FunSink) {
                 let b: Vec<i64> = [-1, 0, 1 << 40, 7, -9][..k].to_vec();
                 FunCase { name: format!("arity/k{k}/s{shape}"), src, inputs: if k == 0 { vec![vec![]] } else { vec![a, b] }, sequenced: true }
             });
+        }
+    }
+}
+
+// ---- FUN-POLY: every polymorphic declaration instantiated at two argument types in one program -------
+pub fn fam_poly(_cfg: &FunCfg, sink: &mut FunSink) {
+    // (type, a value built from n and a distinguishing constant, an integer observation of a value)
+    fn mk(t: usize, i: i64) -> String {
+        match t {
+            0 => format!("n + {i}"),
+            1 => format!("Cons(n + {i}, Cons({i}, Nil))"),
+            2 => format!("new {{ ap(q) => (q * 2) + (n + {i}) }}"),
+            _ => format!("Tup(n * 3, {i})"),
+        }
+    }
+    fn ty(t: usize) -> &'static str {
+        ["i64", "List[i64]", "Fun[i64, i64]", "Pair[i64, i64]"][t]
+    }
+    fn obs(t: usize, v: &str) -> String {
+        match t {
+            0 => v.to_string(),
+            1 => format!("sum({v})"),
+            2 => format!("{v}.ap[i64, i64](5)"),
+            _ => format!("{v}.case[i64, i64] {{ Tup(pa, pb) => pa - pb }}"),
+        }
+    }
+    for a in 0..4usize {
+        for b in 0..4usize {
+            for container in ["list", "pair", "fun", "stream", "lpair"] {
+                sink.offer(move || {
+                    let (ta, tb) = (ty(a), ty(b));
+                    let body = match container {
+                        "list" => format!(
+                            "let u: List[{ta}] = Cons({}, Cons({}, Nil)); let w: List[{tb}] = Cons({}, Nil); println_i64(u.case[{ta}] {{ Nil => 0, Cons(h, t) => ({}) + (t.case[{ta}] {{ Nil => 0, Cons(h2, t2) => {} }}) }}); println_i64(w.case[{tb}] {{ Nil => 0, Cons(h, t) => {} }}); 0",
+                            mk(a, 1), mk(a, 2), mk(b, 3), obs(a, "h"), obs(a, "h2"), obs(b, "h")
+                        ),
+                        "pair" => format!(
+                            "let p: Pair[{ta}, {tb}] = Tup({}, {}); let r: Pair[{tb}, {ta}] = Tup({}, {}); println_i64(p.case[{ta}, {tb}] {{ Tup(u, w) => ({}) - ({}) }}); println_i64(r.case[{tb}, {ta}] {{ Tup(u, w) => ({}) * ({}) }}); 0",
+                            mk(a, 1), mk(b, 2), mk(b, 3), mk(a, 4), obs(a, "u"), obs(b, "w"), obs(b, "u"), obs(a, "w")
+                        ),
+                        "fun" => format!(
+                            "let f: Fun[{ta}, {tb}] = new {{ ap(u) => (println_i64({}); {}) }}; let g: Fun[{tb}, {ta}] = new {{ ap(u) => (println_i64({}); {}) }}; let r: {tb} = f.ap[{ta}, {tb}]({}); println_i64({}); let z: {ta} = g.ap[{tb}, {ta}](r); println_i64({}); 0",
+                            obs(a, "u"), mk(b, 1), obs(b, "u"), mk(a, 2), mk(a, 3), obs(b, "r"), obs(a, "z")
+                        ),
+                        "stream" => format!(
+                            "let s: Stream[{ta}] = new {{ hd => {}, tl => new {{ hd => {}, tl => exit 9 }} }}; let v: Stream[{tb}] = new {{ hd => {}, tl => exit 8 }}; let x: {ta} = s.tl[{ta}].hd[{ta}]; println_i64({}); let y: {tb} = v.hd[{tb}]; println_i64({}); let w: {ta} = s.hd[{ta}]; println_i64({}); 0",
+                            mk(a, 1), mk(a, 2), mk(b, 3), obs(a, "x"), obs(b, "y"), obs(a, "w")
+                        ),
+                        _ => format!(
+                            "let p: LPair[{ta}, {tb}] = new {{ lfst => {}, lsnd => {} }}; let r: LPair[{tb}, {ta}] = new {{ lfst => p.lsnd[{ta}, {tb}], lsnd => p.lfst[{ta}, {tb}] }}; let x: {tb} = r.lfst[{tb}, {ta}]; println_i64({}); let y: {ta} = r.lsnd[{tb}, {ta}]; println_i64({}); 0",
+                            mk(a, 1), mk(b, 2), obs(b, "x"), obs(a, "y")
+                        ),
+                    };
+                    let src = format!("{PRELUDE_TYPES}codata LPair[A, B] {{ lfst: A, lsnd: B }}\n{PRELUDE_DEFS}def main(n: i64): i64 {{ {body} }}\n");
+                    FunCase { name: format!("poly/{container}/{a}{b}"), src, inputs: vec![vec![0], vec![7]], sequenced: true }
+                });
+            }
+        }
+    }
+}
+
+// ---- FUN-WIDE: destructors with 0..8 parameters and constructors with 0..8 fields of types with two
+// xtors, the wide xtor declared first or last; objects invoked / values returned through a call ------
+pub fn fam_wide(_cfg: &FunCfg, sink: &mut FunSink) {
+    for n in 0..=8usize {
+        for last in [false, true] {
+            for kind in ["codata", "data"] {
+                sink.offer(move || {
+                    let ps: Vec<String> = (1..=n).map(|i| format!("a{i}")).collect();
+                    let sig = ps.iter().map(|p| format!("{p}: i64")).collect::<Vec<_>>().join(", ");
+                    let mut weighted = String::from("n");
+                    for (i, p) in ps.iter().enumerate() {
+                        weighted = format!("({weighted}) + ({p} * {})", i + 2);
+                    }
+                    let args = (1..=n).map(|i| format!("n + {i}")).collect::<Vec<_>>().join(", ");
+                    let src = if kind == "codata" {
+                        let wide = if n == 0 { "wn: i64".to_string() } else { format!("wn({sig}): i64") };
+                        let decl = if last { format!("codata W {{ other: i64, {wide} }}") } else { format!("codata W {{ {wide}, other: i64 }}") };
+                        let clause = if n == 0 { format!("wn => {weighted}") } else { format!("wn({}) => {weighted}", ps.join(", ")) };
+                        let call = if n == 0 { "o.wn".to_string() } else { format!("o.wn({args})") };
+                        format!(
+                            "{PRELUDE_TYPES}{decl}\n{PRELUDE_DEFS}def mk(n: i64): W {{ new {{ other => n - 1, {clause} }} }}\ndef main(n: i64): i64 {{ let o: W = mk(n); println_i64({call}); println_i64(o.other); println_i64(mk(n + 1).other); 0 }}\n"
+                        )
+                    } else {
+                        let wide = if n == 0 { "Dn".to_string() } else { format!("Dn({sig})") };
+                        let decl = if last { format!("data D {{ E0, {wide} }}") } else { format!("data D {{ {wide}, E0 }}") };
+                        let value = if n == 0 { "Dn".to_string() } else { format!("Dn({args})") };
+                        let clause = if n == 0 { format!("Dn => {weighted}") } else { format!("Dn({}) => {weighted}", ps.join(", ")) };
+                        format!(
+                            "{PRELUDE_TYPES}{decl}\n{PRELUDE_DEFS}def mk(n: i64): D {{ if n == 0 {{ E0 }} else {{ {value} }} }}\ndef look(d: D, n: i64): i64 {{ d.case {{ E0 => 7, {clause} }} }}\ndef main(n: i64): i64 {{ println_i64(look(mk(n), n)); println_i64(look(mk(n - 1), n)); 0 }}\n"
+                        )
+                    };
+                    FunCase { name: format!("wide/{kind}/n{n}/{}", if last { "last" } else { "first" }), src, inputs: vec![vec![0], vec![1], vec![5]], sequenced: true }
+                });
+            }
         }
     }
 }
